@@ -71,8 +71,12 @@ def check_function(fn, program_functions=None):
         offset[id(b)] = len(flat)
         flat.extend(b.Instructions)
     constants = list(fn.Constants)
-    const_ids = {id(c) for c in constants}
+    const_refs = {c.Reference: c for c in constants}
     ins_ids = {id(i): k for k, i in enumerate(flat)}
+    # A replaced instruction keeps the reference of the one it replaces (WithVariable, Replace), and
+    # users may still hold the exchanged object: an operand denotes "the result of instruction %r",
+    # so operands are resolved by reference number, exactly as the VM and the printer read them.
+    live = {i.Reference: i for i in flat}
 
     # 1. unique references
     seen = {}
@@ -99,18 +103,21 @@ def check_function(fn, program_functions=None):
                     type(ins).__name__, ins.Reference, role, v)))
                 continue
             if isinstance(v, L.ConstantValue):
-                if id(v) not in const_ids:
-                    problems.append(("foreign-constant", "%s %%%s: %s is constant %s which is not registered with the function" % (
-                        type(ins).__name__, ins.Reference, role, v)))
+                reg = const_refs.get(v.Reference)
+                if reg is None or reg.Value != v.Value or type(reg.Value) is not type(v.Value):
+                    problems.append(("foreign-constant", "%s %%%s: %s is constant %s (%%%s) which is not registered with the function" % (
+                        type(ins).__name__, ins.Reference, role, v, v.Reference)))
                 continue
             if isinstance(v, L.BasicBlock) or not isinstance(v, L.Instruction):
                 problems.append(("operand-not-an-instruction", "%s %%%s: %s is a %s" % (
                     type(ins).__name__, ins.Reference, role, type(v).__name__)))
                 continue
-            if id(v) not in ins_ids:
+            lv = live.get(v.Reference)
+            if lv is None:
                 problems.append(("dangling-operand", "%s %%%s: %s refers to %s %%%s which is no longer part of the function" % (
                     type(ins).__name__, ins.Reference, role, type(v).__name__, v.Reference)))
                 continue
+            v = lv
             if not defines_value(v):
                 problems.append(("operand-without-value", "%s %%%s: %s refers to %s %%%s (%s) which does not produce a value" % (
                     type(ins).__name__, ins.Reference, role, type(v).__name__, v.Reference, v.OpCode.name)))
@@ -175,7 +182,7 @@ def check_function(fn, program_functions=None):
                 continue
             cur = state[pos]
             ins = flat[pos]
-            out = cur | {id(ins)} if defines_value(ins) else cur
+            out = cur | {ins.Reference} if defines_value(ins) else cur
             for s in succ[pos]:
                 if s > n:
                     continue
@@ -188,7 +195,7 @@ def check_function(fn, program_functions=None):
             st = state[pos]
             if st is TOP:
                 continue  # unreachable instruction: no path, nothing to violate
-            if id(v) not in st:
+            if v.Reference not in st:
                 ins = flat[pos]
                 problems.append(("use-before-definition", "%s %%%s: %s = %%%s is not defined on every path reaching the use" % (
                     type(ins).__name__, ins.Reference, role, v.Reference)))
